@@ -257,7 +257,7 @@ class Runtime:
                 self.save_calls += 1
                 idx = self.save_calls
         if cfg.get('mode') == 'yield' and self.virtual:
-            gate = self.loop.new_gate('collab', info=(CUR_RUN.get(), what, idx))
+            gate = self.loop.new_gate('collab', info=(CUR_RUN.get(), what, idx, n))
             try:
                 await gate.fut
             except asyncio.CancelledError:
